@@ -32,9 +32,12 @@ def run(ctx):
             "reference validator C03/Spec.v: my transcription of the October-2021 GraphQL validation rules the property lists",
         ],
         assumptions=[
-            "C03 theorems are stated for the sites a spread-following validator reaches from the operations (Spec.v vis_op_sites); "
-            "the fragment definitions no operation spreads are validated by the code since commit c67e45e (variable uses excepted): "
-            "the reference validator reads the site rules on them too (rule_ok_roots) on every case; the theorems do not cover that pass yet",
+            "C03_sound_full: an accepted document satisfies every implemented rule on every syntactic position of every definition "
+            "(operations and all fragment definitions, spread or not; Spec.v rule_ok / spec_valid), guards schema_wf and "
+            "selsets_nonempty; the two variable rules range over each operation with the fragment definitions it transitively spreads, "
+            "so the variables of a fragment definition that no operation reaches are judged by nobody (exactly what the code does since "
+            "commit c67e45e: UnknownVariable is dropped there) — C03_sound_full_fragment_variables spells that guard out (reached_from), "
+            "C03_sound_full_instance shows it at work",
             "the schema passed check (the harness only keeps schemas for which check_type_system_document returns no error)",
         ],
     )
